@@ -18,7 +18,7 @@ EXPLANATION = (
     "mutations are merged into the update message and its mutation baseline is bumped in the same control region. R4 (= C10.R1): a "
     "mutate message never splits an entity. R5 (= C04.R2 + C01.R5): update-tick stamping and waiting. R6: the bit for an older tick "
     "is recorded only inside the window.")
-NOT_DECIDED = "equality of client component values with the server's values at the confirmed tick over all histories and schedules; D13 (acknowledge-on-receipt then skip-as-outdated) is behavioural and not detected"
+NOT_DECIDED = "equality of client component values with the server's values at the confirmed tick over all histories and schedules (the structural necessary conditions R1-R6 are decided; D13 was found by R6 and fixed)"
 TRUSTED_BASE = C10.TRUSTED_BASE + ["the update channel is reliable-ordered (C01.R8)"]
 
 CH = "bevy_replicon::client::confirm_history::ConfirmHistory"
@@ -244,11 +244,19 @@ def r5_stamping_and_waiting(ctx):
         ctx.bad("buffer_mutate_message/BufferedMutate", site_of(bm), "construction not found", kind="anchor-missing")
 
 
+def r6_ack_when_consumed(ctx):
+    """A value the client is confirmed for is a value it applied or one superseded by newer data it applied: acknowledgements are sent
+    only for consumed messages (same rule as C11.R4; acknowledge-on-receipt then skip-as-outdated was D13)."""
+    import rules.C11 as C11
+    C11.r4_client_acks(ctx)
+
+
 RULES = [
     ("C02.R1", "the confirmed tick moves only forward on the mutate path", r1_monotone, 6, ["default", "all-features", "client-only"]),
     ("C02.R2", "stale mutate data is never written over newer state", r2_no_stale_write, 7, ["default", "all-features", "client-only"]),
     ("C02.R3", "structural change => mutations merged into the update message and baseline bumped, together", r3_merge_and_bump, 8, ["default", "all-features", "server-only"]),
     ("C02.R4", "a mutate message never splits an entity (same rule as C10.R1)", r4_no_split, 12, ["default", "all-features", "server-only"]),
     ("C02.R5", "update-tick stamping and waiting (C04.R2 + C01.R5) and tick fields in wire order", r5_stamping_and_waiting, 12, ["default", "all-features"]),
+    ("C02.R6", "mutate messages are acknowledged only when consumed, so skipped-as-outdated data was really superseded (same rule as C11.R4)", r6_ack_when_consumed, 8, ["default", "all-features", "client-only"]),
 ]
 THOROUGH_CONFIGS = ["default", "all-features", "server-only", "client-only"]
